@@ -78,6 +78,10 @@ const (
 	// maxConcurrentConns bounds the number of connections the service handles
 	// concurrently, preventing connection floods from spawning unbounded goroutines.
 	maxConcurrentConns = 512
+
+	// maxRequestSize is the largest length prefix the service accepts. A request is one
+	// marshaled protobuf message, which cannot exceed 2GiB.
+	maxRequestSize = 1 << 31
 )
 
 func init() {
@@ -377,6 +381,10 @@ func (s *Service) handleConn(conn net.Conn) {
 			return
 		}
 		sz := binary.LittleEndian.Uint64(b[0:])
+		if sz > maxRequestSize {
+			// No valid request is this large; a bogus length must not reach make().
+			return
+		}
 
 		p := make([]byte, sz)
 		if s.connTimeout > 0 {
